@@ -257,6 +257,9 @@ impl Property for C08 {
         }
         out
     }
+    fn fuzz_sequences(&self) -> Vec<(&'static str, usize)> {
+        vec![("/evs", 70)]
+    }
     fn run(&self, case: &Scenario) -> Outcome {
         let mut out = Outcome::default();
         // (1) the scenario as given (blocks keep arriving between heartbeats): oracles (a)-(c)
